@@ -1,4 +1,9 @@
 import CoxeterVerif.Lemmas.Constructors
+import CoxeterVerif.Lemmas.ConstructorsStar
+import CoxeterVerif.Lemmas.ConstructorsAlloc
+import CoxeterVerif.Lemmas.ConstructorsReorder
+import CoxeterVerif.Lemmas.ConstructorsConvex
+import CoxeterVerif.Lemmas.ConstructorsPlanar
 /-!
   # C15 — constructors accept valid geometry and reject invalid geometry
 
@@ -805,8 +810,9 @@ theorem ellipsoid_new_guard (a b c : ℝ) (ce : V3 ℝ) :
     fun ha hb hc => by rw [if_pos ha, if_pos hb, if_neg (not_lt.2 hc)],
     fun ha hb hc => by rw [if_pos ha, if_pos hb, if_pos hc]⟩
 
-/-- **`ctor_fresh_arrays`**: no constructor of the model stores a caller array. -/
-theorem ctor_fresh_arrays :
+/-- the provenance tags of the decision model: no constructor of the model stores a caller array (the allocation
+traces behind the tags: `ctor_fresh_arrays` in §9). -/
+theorem ctor_src_fresh :
     (∀ (r : ℝ) (c : V3 ℝ) o, Circle.new r c = .ok o → o.centroidSrc = .fresh) ∧
     (∀ (r : ℝ) (c : V3 ℝ) o, Sphere.new r c = .ok o → o.centroidSrc = .fresh) ∧
     (∀ (a b : ℝ) (c : V3 ℝ) o, Ellipse.new a b c = .ok o → o.centroidSrc = .fresh) ∧
@@ -953,5 +959,321 @@ example : ∃ p, Polygon.new 2 3 exStraight3' none (1/100000) true (fun _ vs => 
   · simp [cornerCross, V3.cross, V3.norm, V3.normSq, V3.dot]
   · norm_num
   · intro m; c15_eval
+
+
+/-! ## 7. the O(n²) predicate IS the definition of a simple polygon -/
+
+/-- the Bool test `onSeg` decides "the point lies on the closed segment" -/
+theorem on_segment_iff (a b x : P2 ℝ) : onSeg a b x = true ↔ OnSegProp a b x := onSeg_iff_prop a b x
+
+/-- **meaning of `foldBack`** (was "by inspection"): two consecutive edges `a → q → d` with `a ≠ q ≠ d` have exactly
+their shared vertex in common iff neither `d` lies on `aq` nor `a` on `qd` -/
+theorem fold_back_meaning (a q d : P2 ℝ) (haq : a ≠ q) (hqd : q ≠ d) :
+    foldBack a q d = false ↔ ∀ x, OnSegProp a q x → OnSegProp q d x → x = q :=
+  foldBack_false_iff a q d haq hqd
+
+/-- edge `i` of `cycEdges` is `(vertex i, vertex i+1)` (indices mod n) -/
+theorem cycle_edges_by_index (l : List (P2 ℝ)) (i : Nat) (h : i < (cycEdges l).length) :
+    (cycEdges l)[i] = (vtx l i, vtx l (i + 1)) := cycEdges_getElem l i h
+
+/-- **`simple ↔ no two non-adjacent edges meet ∧ adjacent edges meet only at the shared vertex`**: for EVERY vertex
+list the O(n²) Bool predicate `Spec.simple` (pairs of `cycEdges`, orientation signs, `foldBack`) holds iff the list is
+a simple polygon in the text-book sense `Spec.SimplePolygon` — ≥ 3 pairwise different vertices; edges `i < j` that are
+not neighbours in the cycle have no common POINT; neighbouring edges have exactly their shared vertex in common
+(points = existentials over segment parameters; indices modulo `n`).
+NOT proved (out of reach here): that a simple polygon has turning number ±1 / that "all turns have the same sign"
+together with simplicity characterises convex polygons (needs the Jordan curve theorem / Hopf's Umlaufsatz for
+polygons; neither is in Mathlib). Only the failing converse is proved: `locally_convex_implies_simple_fails`. -/
+theorem simple_iff_simple_polygon (l : List (P2 ℝ)) : Spec.simple l = true ↔ SimplePolygon l :=
+  simple_iff_simplePolygon_aux l
+
+/-- the unit square satisfies the text-book definition (through the theorem) -/
+example : SimplePolygon exSquare := (simple_iff_simple_polygon exSquare).1 (by unfold exSquare; c15_eval)
+/-- … the bow-tie does not: its edges 0 and 2 have the common point (1/2, 1/2) -/
+example : ¬ SimplePolygon exBowtie := fun h => by
+  have := (simple_iff_simple_polygon exBowtie).2 h
+  revert this; unfold exBowtie; c15_eval
+
+/-! ## 8. star polygons `{n/k}`: locally convex, not simple -/
+
+/-- the diagonals of a strictly convex quadrilateral cross -/
+theorem convex_quadrilateral_diagonals_cross (a b c d : P2 ℝ) (h1 : 0 < orient a b c) (h2 : 0 < orient b c d)
+    (h3 : 0 < orient c d a) (h4 : 0 < orient d a b) : SegMeetProp a c b d :=
+  (segments_meet_iff_exists a c b d).1 (convex_quad_diagonals_cross a b c d h1 h2 h3 h4)
+
+/-- a vertex cycle that uses both diagonals of a strictly convex quadrilateral as edges is rejected -/
+theorem crossing_diagonals_rejected (l : List (P2 ℝ)) (a b c d : P2 ℝ)
+    (hac : (a, c) ∈ cycEdges l) (hbd : (b, d) ∈ cycEdges l)
+    (h1 : 0 < orient a b c) (h2 : 0 < orient b c d) (h3 : 0 < orient c d a) (h4 : 0 < orient d a b) :
+    Spec.simple l = false := by
+  unfold Spec.simple
+  rw [crossing_diagonals_not_simple l a b c d hac hbd h1 h2 h3 h4, Bool.and_false]
+
+/-- **every star polygon `{n/k}` is rejected by the O(n²) predicate**: `n` points in strictly convex position
+(listed counter-clockwise: every index triple `i < j < m` turns left), visited every `k`-th, `2 ≤ k ≤ n − 2`,
+`gcd(k, n) = 1` — pentagram `{5/2}`, heptagrams `{7/2}`, `{7/3}`, octagram `{8/3}`, … for ANY such points (no
+regularity, any position and size). The proof exhibits the crossing pair: `p₀p_k` and `p₁p_{k+1}`. -/
+theorem star_polygon_not_simple (pts : List (P2 ℝ)) (k : Nat) (hconv : ConvexCCW pts) (hk2 : 2 ≤ k)
+    (hkn : k + 2 ≤ pts.length) (hco : Nat.Coprime k pts.length) :
+    edgesOK (starOrder pts k) = false ∧ Spec.simple (starOrder pts k) = false ∧ ¬ SimplePolygon (starOrder pts k) := by
+  have h := starOrder_edgesOK_false pts k hconv hk2 hkn hco
+  have h2 : Spec.simple (starOrder pts k) = false := by unfold Spec.simple; rw [h, Bool.and_false]
+  refine ⟨h, h2, ?_⟩
+  rw [← simple_iff_simple_polygon, h2]; simp
+
+/-- **`Polygon.__init__` (model) rejects every star polygon**, whatever normal / tolerance is supplied: if the aligned
+vertices project onto a star order of points in convex position the constructor cannot return an object. -/
+theorem polygon_new_rejects_star (pts : List (P2 ℝ)) (k : Nat) (hconv : ConvexCCW pts) (hk2 : 2 ≤ k)
+    (hkn : k + 2 ≤ pts.length) (hco : Nat.Coprime k pts.length)
+    (ndim ncols : Nat) (rows : List (V3 ℝ)) (normal : Option (V3 ℝ)) (ptol : ℝ)
+    (align : V3 ℝ → List (V3 ℝ) → List (V3 ℝ))
+    (hal : ∀ n, (align n (rows.map (pad ncols))).map xy = starOrder pts k) (p : Poly ℝ) :
+    Polygon.new ndim ncols rows normal ptol true align ≠ .ok p := by
+  intro h
+  rw [polygon_new_accepts_iff] at h
+  obtain ⟨_, _, _, _, _, _, hs, _⟩ := h
+  have := hs rfl
+  rw [hal, (star_polygon_not_simple pts k hconv hk2 hkn hco).1] at this
+  exact Bool.noConfusion this
+
+/-- five points in convex position (not regular), counter-clockwise -/
+def exPent : List (P2 ℝ) := [⟨0,3⟩, ⟨-3,1⟩, ⟨-2,-3⟩, ⟨2,-3⟩, ⟨3,1⟩]
+/-- seven points in convex position, counter-clockwise -/
+def exHept : List (P2 ℝ) := [⟨4,0⟩, ⟨3,3⟩, ⟨0,4⟩, ⟨-3,2⟩, ⟨-4,-1⟩, ⟨-1,-4⟩, ⟨3,-3⟩]
+
+theorem exPent_convex : ConvexCCW exPent := by
+  intro i j m hij hjm hm
+  have hm' : m < 5 := hm
+  interval_cases m <;> interval_cases j <;> interval_cases i <;>
+    simp [vtx, exPent, orient, Scalar.lit] <;> norm_num
+
+theorem exHept_convex : ConvexCCW exHept := by
+  intro i j m hij hjm hm
+  have hm' : m < 7 := hm
+  interval_cases m <;> interval_cases j <;> interval_cases i <;>
+    simp [vtx, exHept, orient, Scalar.lit] <;> norm_num
+
+theorem exPent_star : starOrder exPent 2 = [⟨0,3⟩, ⟨-2,-3⟩, ⟨3,1⟩, ⟨-3,1⟩, ⟨2,-3⟩] := by
+  simp [starOrder, exPent, List.range, List.range.loop]
+
+/-- the pentagram `{5/2}`, the heptagrams `{7/2}`, `{7/3}` (hypotheses of `star_polygon_not_simple` are satisfiable) -/
+theorem pentagram_rejected : Spec.simple (starOrder exPent 2) = false :=
+  (star_polygon_not_simple exPent 2 exPent_convex (by norm_num) (by simp [exPent]) (by simp [exPent]; decide)).2.1
+theorem heptagram2_rejected : Spec.simple (starOrder exHept 2) = false :=
+  (star_polygon_not_simple exHept 2 exHept_convex (by norm_num) (by simp [exHept]) (by simp [exHept]; decide)).2.1
+theorem heptagram3_rejected : Spec.simple (starOrder exHept 3) = false :=
+  (star_polygon_not_simple exHept 3 exHept_convex (by norm_num) (by simp [exHept]) (by simp [exHept]; decide)).2.1
+
+/-- the pentagram turns left at every vertex … -/
+theorem pentagram_same_turns : sameTurns (starOrder exPent 2) = true := by
+  rw [exPent_star]
+  simp only [sameTurns, cycCorners, path3, List.cons_append, List.nil_append, List.all_cons, List.all_nil, orient,
+    lit_zero]
+  norm_num
+
+/-- **"all turns have the same sign ⇒ convex ⇒ simple" is FALSE** (the reasoning behind a tempting fast path in
+`_is_simple`): the pentagram is locally convex — every turn strictly to the left — and not simple; its turning number
+is 2. (For turning number 1 the implication holds; that direction is not proved here.) -/
+theorem locally_convex_implies_simple_fails :
+    ¬ (∀ l : List (P2 ℝ), sameTurns l = true → edgesOK l = true) := by
+  intro h
+  have h1 := h _ pentagram_same_turns
+  rw [(star_polygon_not_simple exPent 2 exPent_convex (by norm_num) (by simp [exPent]) (by simp [exPent]; decide)).1] at h1
+  exact Bool.noConfusion h1
+
+/-- … and the model of `Polygon.__init__` rejects the pentagram in the plane z = 0 (identity alignment) with the
+"simple" clause, for any supplied normal and tolerance -/
+example (normal : Option (V3 ℝ)) (ptol : ℝ) (p : Poly ℝ) :
+    Polygon.new 2 2 ((starOrder exPent 2).map fun q => ⟨q.x, q.y, 0⟩) normal ptol true (fun _ vs => vs) ≠ .ok p := by
+  apply polygon_new_rejects_star exPent 2 exPent_convex (by norm_num) (by simp [exPent]) (by simp [exPent]; decide)
+  intro n
+  rw [List.map_map, List.map_map]
+  conv_rhs => rw [← List.map_id (starOrder exPent 2)]
+  apply List.map_congr_left
+  intro q _
+  simp [xy, pad, Function.comp]
+
+/-! ## 9. allocation: no constructor stores or writes a caller array -/
+
+/-- **`ctor_fresh_arrays`** — for EVERY class and EVERY kind of argument container (list / tuple, float64 ndarray,
+ndarray of another element type; any layout), with the conversions of /repo (`repoSites`: `np.array` at every site):
+every array kept by the new object lives in a block allocated by the constructor (`Fresh s0`: the block number is
+≥ the allocation pointer at entry, every caller block is below it) and every in-place write (`/=`, filling
+`_equations`) went to such a block.  Polygon (and the `_polygon` of nothing else), ConvexPolygon = ConvexSpheropolygon's
+polygon, ConvexPolyhedron = ConvexSpheropolyhedron's polyhedron, the four curved shapes, and — vertices / equations
+only — Polyhedron; its FACES are the exception: `polyhedron_ctor_keeps_caller_faces_fails`. -/
+theorem ctor_fresh_arrays (s0 : Alloc) :
+    (∀ ncols verts normal,
+      Fresh s0 (Polygon.alloc repoSites ncols verts normal s0).1.vertices ∧
+      Fresh s0 (Polygon.alloc repoSites ncols verts normal s0).1.normal ∧
+      WritesOnlyFresh s0 (Polygon.alloc repoSites ncols verts normal s0).2) ∧
+    (∀ ncols verts normal,
+      Fresh s0 (ConvexPolygon.alloc repoSites ncols verts normal s0).1.vertices ∧
+      Fresh s0 (ConvexPolygon.alloc repoSites ncols verts normal s0).1.normal ∧
+      WritesOnlyFresh s0 (ConvexPolygon.alloc repoSites ncols verts normal s0).2) ∧
+    (∀ verts nfaces,
+      Fresh s0 (ConvexPolyhedron.alloc repoSites verts nfaces s0).1.vertices ∧
+      (∀ b ∈ (ConvexPolyhedron.alloc repoSites verts nfaces s0).1.faces, Fresh s0 b) ∧
+      Fresh s0 (ConvexPolyhedron.alloc repoSites verts nfaces s0).1.equations ∧
+      WritesOnlyFresh s0 (ConvexPolyhedron.alloc repoSites verts nfaces s0).2) ∧
+    (∀ cls centre,
+      Fresh s0 (Curved.alloc repoSites cls centre s0).1 ∧ WritesOnlyFresh s0 (Curved.alloc repoSites cls centre s0).2) ∧
+    (∀ verts faces nfaces,
+      Fresh s0 (Polyhedron.alloc repoSites verts faces nfaces s0).1.vertices ∧
+      Fresh s0 (Polyhedron.alloc repoSites verts faces nfaces s0).1.equations ∧
+      WritesOnlyFresh s0 (Polyhedron.alloc repoSites verts faces nfaces s0).2) := by
+  refine ⟨?_, ?_, ?_, ?_, ?_⟩
+  · intro ncols verts normal
+    obtain ⟨h1, h2, h3, _⟩ := polygon_alloc_repo ncols verts normal s0
+    exact ⟨h1, h2, h3⟩
+  · intro ncols verts normal; exact convexpolygon_alloc_repo ncols verts normal s0
+  · intro verts nfaces; exact convexpolyhedron_alloc_repo verts nfaces s0
+  · intro cls centre; exact curved_alloc_repo cls centre s0
+  · intro verts faces nfaces
+    obtain ⟨h1, h2, h3, _⟩ := polyhedron_alloc_repo verts faces nfaces s0
+    exact ⟨h1, h2, h3⟩
+
+/-- a stored block that is fresh is none of the caller's (the caller's arrays live below the allocation pointer) -/
+theorem fresh_not_caller (s0 : Alloc) (b : Nat) (hb : Fresh s0 b) (a : ArgKind) (ha : a.Below s0.next) :
+    ∀ f blk, a = .nd f blk → b ≠ blk := by
+  intro f blk h; subst h
+  unfold Fresh at hb; unfold ArgKind.Below at ha
+  omega
+
+/-- **`Polyhedron.__init__` keeps the caller's face arrays** (`self._faces = [face for face in faces]`): with a 2-D
+`faces` ndarray every stored face is a row view into the CALLER's block; with a list of ndarrays the stored faces are
+the caller's own objects. So "a constructor never stores the caller's arrays" is false for this class (genuine defect
+of /repo: `known_findings.d/C15.json`, signature `Polyhedron.__init__:caller-array-stored:faces`). -/
+theorem polyhedron_ctor_keeps_caller_faces_fails :
+    ¬ (∀ (s0 : Alloc) (verts : ArgKind) (faces : FacesKind) (nfaces : Nat),
+        ∀ b ∈ (Polyhedron.alloc repoSites verts faces nfaces s0).1.faces, Fresh s0 b) := by
+  intro h
+  have := h ⟨100, []⟩ .seq (.array2d 3) 4 3 (by
+    rw [(polyhedron_alloc_repo .seq (.array2d 3) 4 ⟨100, []⟩).2.2.2]; simp)
+  unfold Fresh at this
+  simp at this
+
+/-- `_partial` (what does hold for `Polyhedron`): faces given as nested lists/tuples put no ndarray into the object,
+and a constructor that copied each face (`copyFaces`) would store fresh arrays only -/
+theorem polyhedron_ctor_faces_partial (s0 : Alloc) (verts : ArgKind) (nfaces : Nat) :
+    (Polyhedron.alloc repoSites verts .nested nfaces s0).1.faces = [] ∧
+    ∀ faces, ∀ b ∈ (Polyhedron.alloc { repoSites with copyFaces := true } verts faces nfaces s0).1.faces, Fresh s0 b :=
+  ⟨(polyhedron_alloc_repo verts .nested nfaces s0).2.2.2, fun faces => polyhedron_alloc_copyFaces verts faces nfaces s0⟩
+
+/-- **why `np.array` matters (supplied normal)**: with `np.asarray(normal, dtype=np.float64)` at that one site, a
+caller's float64 ndarray IS the stored `_normal` and is normalised in place; a list, a tuple or an ndarray of another
+element type is still copied. -/
+theorem polygon_asarray_normal_aliases (s0 : Alloc) (ncols : Nat) (verts : ArgKind) (blk : Nat) :
+    (Polygon.alloc { repoSites with polygonNormal := .asarray } ncols verts (some (.nd true blk)) s0).1.normal = blk ∧
+    blk ∈ (Polygon.alloc { repoSites with polygonNormal := .asarray } ncols verts (some (.nd true blk)) s0).2.writes ∧
+    Fresh s0 (Polygon.alloc { repoSites with polygonNormal := .asarray } ncols verts (some (.nd false blk)) s0).1.normal ∧
+    Fresh s0 (Polygon.alloc { repoSites with polygonNormal := .asarray } ncols verts (some .seq) s0).1.normal := by
+  unfold Polygon.alloc repoSites Fresh
+  simp only [convert_array, convert_asarray_same _ _ _ _ (Or.inr rfl), convert_asarray_other, convert_asarray_seq]
+  by_cases h : ncols = 2 <;> simp only [h, if_true, if_false, Alloc.fresh, Alloc.write, List.mem_cons, true_or, true_and] <;>
+    omega
+
+/-- **why `np.array` matters (centre of the curved shapes)**: with `np.asarray(value)` an ndarray of ANY element type
+is kept as it is -/
+theorem curved_asarray_centre_aliases (s0 : Alloc) (cls : Curved) (f : Bool) (blk : Nat) :
+    (Curved.alloc { repoSites with centre := fun _ => .asarray } cls (.nd f blk) s0).1 = blk := by
+  unfold Curved.alloc
+  simp only [convert_asarray_same _ _ _ _ (Or.inl rfl)]
+
+/-- concrete run: a `(N,2)` list of vertices and a float64 ndarray normal in block 1 — the polygon keeps blocks
+101 (`hstack`) and 103 (`np.array(normal)`), writes 102 and 103, never block 1 -/
+example : (Polygon.alloc repoSites 2 .seq (some (.nd true 1)) ⟨100, []⟩).1.vertices = 101 ∧
+    (Polygon.alloc repoSites 2 .seq (some (.nd true 1)) ⟨100, []⟩).1.normal = 103 ∧
+    (Polygon.alloc repoSites 2 .seq (some (.nd true 1)) ⟨100, []⟩).2.writes = [103, 102] := by
+  refine ⟨rfl, rfl, rfl⟩
+
+/-! ## 10. `_reorder_verts` is idempotent -/
+
+/-- **`_reorder_verts` leaves vertices that already come in (angle, distance) order unchanged** (the insertion sort
+that models `np.lexsort` is stable) -/
+theorem reorder_sorted_fixed {β : Type} (rot : List (V3 ℝ)) (payload : List β) (hlen : rot.length = payload.length)
+    (hs : (List.zip (sortKeys rot) payload).Pairwise
+      (fun a b => a.1.1 < b.1.1 ∨ (a.1.1 = b.1.1 ∧ a.1.2 ≤ b.1.2))) :
+    reorder rot payload = payload :=
+  reorder_sorted_fixed_aux rot payload hlen (hs.imp (fun {a b} h => (keyLe_iff a b).2 h))
+
+/-- **`reorder_idempotent`** (DESIGN §7): applying `_reorder_verts` to its own result changes nothing — the aligned
+points `reorder rot rot` and any payload re-ordered with them (the vertex array) — under the condition of
+`reorder_keeps_first` (no other vertex on the ray through vertex 0 strictly closer to the mean), which makes the
+reference angle of the second pass that of the first. Uses: the key of a vertex depends on the vertex and the reference
+angle only (`sortKeys_eq_map`), sorting commutes with maps of the payload, a sorted list is a fixed point. -/
+theorem reorder_idempotent {β : Type} (r0 : V3 ℝ) (rs : List (V3 ℝ)) (payload : List β)
+    (hlen : (r0 :: rs).length = payload.length)
+    (hray : ∀ k ∈ sortKeys (r0 :: rs) |>.tail, k.1 = 0 → V3.norm r0 ≤ k.2) :
+    reorder (reorder (r0 :: rs) (r0 :: rs)) (reorder (r0 :: rs) payload) = reorder (r0 :: rs) payload := by
+  apply reorder_idempotent_aux _ _ hlen
+  have hh := reorder_keeps_first r0 rs r0 rs hray
+  unfold refAngle
+  cases hr : reorder (r0 :: rs) (r0 :: rs) with
+  | nil => rw [hr] at hh; cases hh
+  | cons a t =>
+    rw [hr] at hh
+    simp only [List.head?_cons, Option.some.injEq] at hh
+    subst hh
+    simp
+
+/-- two points on one ray (the tie case): the second pass returns the first pass's result -/
+def exRay : List (V3 ℝ) := [⟨1,0,0⟩, ⟨2,0,0⟩]
+example : reorder (reorder exRay exRay) (reorder exRay ["v0", "v1"]) = reorder exRay ["v0", "v1"] := by
+  unfold exRay
+  apply reorder_idempotent ⟨1,0,0⟩ [⟨2,0,0⟩] ["v0", "v1"] rfl
+  intro k hk _
+  simp only [sortKeys, relAngles, List.map_cons, List.map_nil, List.zip_cons_cons, List.zip_nil_right,
+    List.tail_cons, List.mem_singleton] at hk
+  rw [hk]
+  simp only [V3.norm, V3.normSq, V3.dot, Scalar.sqrt_real]
+  apply Real.sqrt_le_sqrt
+  norm_num
+
+/-! ## 11. convex ⇒ simple (the true half) -/
+
+/-- **a strictly convex polygon listed counter-clockwise is simple**: if every vertex other than an edge's end points
+lies strictly to the left of that directed edge (`Spec.ccwConvex2`, the planar form of the condition the check
+evaluates exactly on every constructed ConvexPolygon) and the vertices are pairwise different, then the cycle
+satisfies the O(n²) predicate and hence the text-book definition. Together with `locally_convex_implies_simple_fails`:
+GLOBAL convexity implies simplicity, LOCAL convexity (all turns of one sign) does not. -/
+theorem ccw_convex_is_simple (l : List (P2 ℝ)) (hd : distinct l = true) (h : ccwConvex2 l = true) :
+    Spec.simple l = true ∧ SimplePolygon l :=
+  ⟨ccwConvex2_simple l hd h, (simple_iff_simple_polygon l).1 (ccwConvex2_simple l hd h)⟩
+
+/-- the convex pentagon `exPent` (not its star order) meets the hypotheses … -/
+example : SimplePolygon exPent := by
+  refine (ccw_convex_is_simple exPent ?_ ?_).2
+  · unfold exPent; c15_eval
+  · simp only [ccwConvex2, exPent, cycEdges, path, List.cons_append, List.nil_append, List.all_cons, List.all_nil,
+      ptEq, orient, Scalar.eqb, lit_zero, List.length_cons, List.length_nil]
+    norm_num
+/-- … while its star order is locally convex only: `ccwConvex2` fails for it -/
+example : ccwConvex2 (starOrder exPent 2) = false := by
+  rw [exPent_star]
+  simp only [ccwConvex2, cycEdges, path, List.cons_append, List.nil_append, List.all_cons, List.all_nil,
+    ptEq, orient, Scalar.eqb, lit_zero, List.length_cons, List.length_nil]
+  norm_num
+
+/-- **soundness of the per-run certificate** (planes z = const seen against +z): the predicate the check evaluates
+exactly over ℚ on every constructed ConvexPolygon / ConvexSpheropolygon — `Spec.ccwConvex normal vertices` — is, for
+such a plane, the planar `ccwConvex2` of the projected vertices (`ccwConvex_planar`); with pairwise different vertices
+it therefore CERTIFIES that the stored cycle is a simple polygon in the text-book sense. (For tilted planes the same
+holds after a rotation; not proved — the check evaluates `ccwConvex` there too.) -/
+theorem ccw_certificate_sound (c : ℝ) (verts : List (V3 ℝ)) (hz : ∀ v ∈ verts, v.z = c)
+    (hd : distinct (verts.map xy) = true) (h : ccwConvex ⟨0, 0, 1⟩ verts = true) :
+    SimplePolygon (verts.map xy) :=
+  (ccw_convex_is_simple _ hd (by rw [← ccwConvex_planar c verts hz]; exact h)).2
+
+/-- the unit square in the plane z = 0 carries the certificate -/
+example : SimplePolygon (exSquare3.map xy) := by
+  apply ccw_certificate_sound 0 exSquare3
+  · intro v hv; simp only [exSquare3, List.mem_cons, List.not_mem_nil, or_false] at hv
+    rcases hv with rfl | rfl | rfl | rfl <;> rfl
+  · unfold exSquare3; c15_eval
+  · simp only [ccwConvex, exSquare3, cycEdges, path, List.cons_append, List.nil_append, List.all_cons, List.all_nil,
+      v3Eq, leftOf, V3.det3, V3.dot, V3.cross, V3.sub_x, V3.sub_y, V3.sub_z, Scalar.eqb, lit_zero, List.length_cons,
+      List.length_nil]
+    norm_num
 
 end
